@@ -6,7 +6,7 @@ class P(StreamProperty):
     pid = 'C10'
     module = 'OpenFecVerif.Props.C10'
     theorems = ['C10_rs_finish_ok_iff', 'C10_rs_finish_failure_iff', 'C10_rs_monotone', 'C10_rs_submit_ok', 'C10_ldpc_finish_complete_ok',
-                'C10_ldpc_submit_ok', 'C10_rs_pointer_identity', 'C10_ldpc_finish_truthful']
+                'C10_ldpc_submit_ok', 'C10_rs_pointer_identity', 'C10_ldpc_finish_truthful', 'C10_ldpc_pointer_identity']
     rule = ('decoder sessions traced after every call (of_is_decoding_complete + of_get_source_symbols_tab after each submission): '
             'all receive sets for n<=nmax in increasing and shuffled-with-duplicates order, both submission APIs, finish after completion, '
             'finish with fewer than k symbols, callbacks; oracle: finish=OK <=> complete afterwards, finish=FAILURE <=> not complete, '
